@@ -92,6 +92,17 @@ def extract_item(src, start_re):
                 in_str = False
         elif c == '"':
             in_str = True
+        elif c == "'":
+            # char literal ('{', '\'', '\u{1F600}') vs lifetime ('a): skip the former as a whole
+            mm = re.match(r"'(\\u\{[0-9a-fA-F]+\}|\\.|[^\\'])'", src[p:p + 14])
+            if mm:
+                p += mm.end()
+                continue
+        elif c == "r" and re.match(r'r#*"', src[p:p + 6]) and not (src[p - 1].isalnum() or src[p - 1] == "_"):
+            hashes = len(re.match(r'r(#*)"', src[p:]).group(1))
+            end = src.index('"' + "#" * hashes, p + 2 + hashes)
+            p = end + 1 + hashes
+            continue
         elif c == "/" and src[p:p + 2] == "//":
             p = src.index("\n", p)
             continue
